@@ -3,7 +3,7 @@ from .. import checks_a, grid
 from .gridprop import GridProp
 
 GridProp(
-    "C05", "vf.props.c05", lambda tier: grid.real_grid(tier) + grid.complex_grid(tier), checks_a.check_structure,
+    "C05", "vf.props.c05", lambda tier: grid.real_grid(tier) + grid.complex_grid(tier) + grid.container_grid(tier), checks_a.check_structure,
     files=["autograd/numpy/numpy_vjps.py", "autograd/numpy/numpy_jvps.py", "autograd/core.py", "autograd/differential_operators.py", "autograd/builtins.py",
            "autograd/numpy/linalg.py", "autograd/numpy/fft.py"],
     functions=["autograd.numpy.numpy_vjps:unbroadcast / unbroadcast_f / match_complex inside every reached VJP rule", "autograd.numpy.numpy_jvps:broadcast",
